@@ -64,6 +64,21 @@ def parseEval (j : Json) : Except String EvalMode :=
     | "on" => pure .on | "ips" => pure .ips
     | s => throw s!"eval mode {s}"
 
+def parseLearnX (j : Json) : Except String LearnModeX :=
+  if j.isNull then pure .none else do
+    match (← str j) with
+    | "on" => pure .on | "off" => pure .off | "ips" => pure .ips | "dr" => pure .dr | "dm" => pure .dm
+    | s => throw s!"learn mode {s}"
+
+def parseEvalX (j : Json) : Except String EvalModeX :=
+  if j.isNull then pure .none else do
+    match (← str j) with
+    | "on" => pure .on | "ips" => pure .ips | "dr" => pure .dr | "dm" => pure .dm
+    | s => throw s!"eval mode {s}"
+
+def opeTypeStr : OpeType → String
+  | .ips => "IPS" | .dr => "DR" | .dm => "DM"
+
 structure Entry where
   idx : Nat
   free : V
@@ -188,7 +203,36 @@ def outJson : Outcome ((Nat × Nat) × List (Call V) × List (Row V RTab)) → J
 "s0":[p,s] (optional: script position of the learner when the evaluation starts — later evaluations of a history)}
 answer: model output, the spec's output on the same case (unbatched reading) and whether the
 hypotheses of the refinement theorem hold for the case -/
+def handleX (req : Json) (xj : Json) : Except String Json := do
+  let cfg : ConfigX := { learn := (← parseLearnX (fieldD xj "learn" Json.null)),
+                         eval := (← parseEvalX (fieldD xj "eval" Json.null)),
+                         record := (← strList (← field xj "record")) }
+  let vw ← bool (fieldD req "vw" (Json.bool false))
+  let bs ← opt nat (fieldD req "batch" Json.null)
+  let env ← (← arr (← field req "env")).mapM parseDict
+  let lj ← field req "learner"
+  let script ← (← arr (← field lj "script")).mapM parseEntry
+  let L := scripted script (← bool (← field lj "has_score"))
+  let s0 : Nat × Nat ← match fieldD req "s0" Json.null with
+    | .arr #[a, b] => do pure ((← nat a), (← nat b))
+    | _ => pure (0, 0)
+  let out : Json := match evaluateX vw cfg L bs env s0 with
+    | .done o => outJson o
+    | .packageMissing t tg => obj [("kind", Json.str "error"), ("err", Json.str "package"), ("type", Json.str (opeTypeStr t)),
+                                   ("target", Json.str tg)]
+    | .notModelled => obj [("kind", Json.str "notModelled")]
+  pure (obj [("modelX", out),
+             ("requiredX", ofList Json.str (requiredX cfg L.hasScore)),
+             ("requiredSX", ofList Json.str (requiredSX cfg L.hasScore)),
+             ("shouldPredX", Json.bool (shouldPredX cfg L.hasScore)),
+             ("evalTargetX", Json.str (evalTargetX cfg)),
+             ("opeFilters", ofList (fun (tt : OpeType × String) => Json.arr #[Json.str (opeTypeStr tt.1), Json.str tt.2]) (opeFilters cfg)),
+             ("base", Json.bool cfg.base.isSome)])
+
 def handle (req : Json) : Except String Json := do
+  match req.getObjVal? "xcfg" with
+  | .ok xj => handleX req xj
+  | .error _ =>
   let cfgj ← field req "cfg"
   let cfg : Config := { learn := (← parseLearn (fieldD cfgj "learn" Json.null)),
                         eval := (← parseEval (fieldD cfgj "eval" Json.null)),
@@ -245,7 +289,20 @@ def handle (req : Json) : Except String Json := do
         | .rejected ks => outJson (.rejected ks)
         | .crashed e => outJson (.crashed e))
     | .error _ => pure Json.null
-  pure (obj [("model", outJson model), ("hyp", Json.bool hyp), ("spec", ofOpt id spec), ("specB", ofOpt id specB),
+  -- heterogeneous environments: the first interaction lacking a key the code subscripts, and the evaluation of the prefix before it
+  let bad : Json := match env with
+    | [] => Json.null
+    | first :: _ => match firstBad cfg (mkFlags first) env with
+      | some (i, ks) => obj [("at", ofNat i), ("keys", ofList Json.str ks), ("shapeOk", Json.bool (env.all (shapeOk (mkFlags first)))),
+                             ("prefix", outJson (evaluate cfg L none (env.take i) s0))]
+      | none => Json.null
+  let rkeys : Json := match env with
+    | [] => Json.null
+    | first :: _ =>
+      let sp := shouldPred cfg L.hasScore
+      Json.arr #[ofList Json.str (recordKeys cfg (mkFlags first) sp bs.isSome false),
+                 ofList Json.str (recordKeys cfg (mkFlags first) sp bs.isSome true)]
+  pure (obj [("model", outJson model), ("hyp", Json.bool hyp), ("firstBad", bad), ("recordKeys", rkeys), ("spec", ofOpt id spec), ("specB", ofOpt id specB),
              ("modelI", modelI), ("modelIB", modelIB), ("modelP", modelP),
              ("history", hist),
              ("unbatched", outJson modelU),
